@@ -50,6 +50,9 @@ type c09Job struct {
 	// Primed: an honest directory entry ["d"] with the same path id is received first, so that the
 	// receiver has already chosen (and cached) a local name for that path id
 	Primed bool `json:"primed"`
+	// Win: the receiving transfer runs with the Windows line protocol (a client whose peer's trigger said
+	// "Windows server"); the local platform's separator stays '/'
+	Win bool `json:"win"`
 }
 
 type c09Result struct {
@@ -448,6 +451,7 @@ func c09RunDirect(d *vCtx, tr *vTrace, base string, j *c09Job) (*c09Result, erro
 	rel := c09Spell(sb, j.Rel)
 	sink := &e2eSink{}
 	rt := newTransfer(sink, nil, false, nil)
+	rt.windowsProtocol = j.Win
 	rt.transferConfig.Overwrite = j.Overwrite
 	rt.transferConfig.Directory = j.Directory
 	rt.transferConfig.Protocol = j.Proto
